@@ -382,7 +382,7 @@ def r0_urls(ctx):
                 want = C("Some", S(a)) if a != "en" else C("None")
                 if got != want:
                     bad.setdefault("read-locale", "base path %r: the locale of `%s` is read as %s, expected %s" % (base, src, absint.fmt(got), absint.fmt(want)))
-        for near in ("english", "frites/x", "fr-CA/x", "e", "xfr/fr", ""):
+        for near in ("english", "frites/x", "fr-CA/x", "e", "xfr/fr", "", "FR/x", "Fr", "EN", "fR/about", "de /x", "%66r/x"):
             src = "/" + "/".join(bsegs + [near]) if near else "/" + "/".join(bsegs)
             got = locale_of(src, base)
             if isinstance(got, str):
